@@ -62,10 +62,11 @@ type op struct {
 }
 
 type pointRec struct {
-	N      int  // number of alternatives
-	Chosen int  // alternative taken
-	Cost   int  // cost of taking a non-zero alternative (0 or 1)
-	Kind   byte // 's' schedule, 'c' select case, 'e' environment
+	N      int   // number of alternatives
+	Chosen int   // alternative taken
+	Cost   int   // cost of taking a non-zero alternative (0 or 1)
+	Kind   byte  // 's' schedule, 'c' select case, 'e' environment
+	T      int64 // virtual time of the point
 }
 
 // Sched is the per-process scheduler state.
@@ -472,13 +473,13 @@ func (s *Sched) choose(n, cost int, kind byte) int {
 		// check fingerprints from the first fresh point on.
 		if idx >= len(s.prefix) {
 			if s.pruneFn(idx, mix(s.fingerprint(), uint64(kind)), cost) {
-				s.trace = append(s.trace, pointRec{N: n, Chosen: c, Cost: cost, Kind: kind})
+				s.trace = append(s.trace, pointRec{N: n, Chosen: c, Cost: cost, Kind: kind, T: s.now})
 				s.end(StPruned)
 				return -1
 			}
 		}
 	}
-	s.trace = append(s.trace, pointRec{N: n, Chosen: c, Cost: cost, Kind: kind})
+	s.trace = append(s.trace, pointRec{N: n, Chosen: c, Cost: cost, Kind: kind, T: s.now})
 	return c
 }
 
